@@ -154,7 +154,7 @@ unit(K("sharded_ops", "sharded_ops_sanity_twin", functions=SHARDED, expect="fail
 _root = os.path.dirname(os.path.dirname(os.path.dirname(os.path.abspath(__file__))))
 STACK_NAMES = re.findall(r"stackc?_harness!\((\w+),", open(os.path.join(_root, "harness", "stack_ops.rs")).read())
 for n in STACK_NAMES:
-    unit(K("stack_ops", n, functions=STACK, timeout=1500, mem_gb=int(os.environ.get("KV_STACK_MEM", "0")) or (18 if ("gou" in n or "ensure" in n or "temp" in n or "set_w1" in n or "put_w1" in n or "bytes" in n) else 10),
+    unit(K("stack_ops", n, functions=STACK, timeout=(2400 if n == "stackc_set_temp_w1r1_fault" else 1500), mem_gb=int(os.environ.get("KV_STACK_MEM", "0")) or (18 if ("gou" in n or "ensure" in n or "temp" in n or "set_w1" in n or "put_w1" in n or "bytes" in n) else 10),
            bounds="per level: key absent / value A / value B; populate outcome {value, NotFound, other error}; judge answer any",
            panic_ok=("auto_sync failed, and failure semantics are unclear",) if "fault" in n else (), covers="any"))
 unit(K("stack_ops", "stack_ops_sanity_twin", functions=STACK, expect="fail", timeout=2400, mem_gb=10))
